@@ -48,7 +48,7 @@ func (c *Ctx) ruleLockOrder() {
 	a := c.lockAnalysis()
 	r := c.R
 	r.Rule("E1a.classes", "every Lock/RLock/Unlock receiver resolves to a lock class (struct field holding the mutex)", 12)
-	r.Rule("E1a.order", "lock-order graph (B acquired while A may be held, interprocedural, callbacks modelled) has no cycle; self-edges need a gate lock or a provably fresh inner instance", 40)
+	r.Rule("E1a.order", "lock-order graph (B acquired while A may be held, interprocedural, callbacks modelled) has no cycle; self-edges need a gate lock or a provably fresh inner instance", 30)
 	for _, u := range a.Unres {
 		r.Undec("E1a.classes", ir.OuterKey(u.Parent()), "unresolved-mutex", c.P.InstrPos(u), "cannot name the lock class of this mutex operand; the order graph would be incomplete")
 	}
@@ -342,7 +342,7 @@ func sccs(adj map[string][]string) map[string]int {
 func (c *Ctx) ruleReentry() {
 	a := c.lockAnalysis()
 	r := c.R
-	r.Rule("E1c.reentry", "no call of mgmtOperation (which waits for the management loop, which needs sharedData.mu exclusively) is reachable while sharedData.mu may be held", 60)
+	r.Rule("E1c.reentry", "no call of mgmtOperation (which waits for the management loop, which needs sharedData.mu exclusively) is reachable while sharedData.mu may be held", 45)
 	mg := c.P.Func("(*pkg/server.BgpServer).mgmtOperation")
 	if mg == nil {
 		r.Undec("E1c.reentry", "-", "anchor:mgmtOperation", "-", "management entry point not found")
